@@ -680,7 +680,16 @@ func c05Real(env *core.Env) *core.Result {
 					}
 				}
 			}
-			// (2) end to end
+			// (2) end to end. With the library's own validator only in the first round: a library may give that validator
+			// a CRL cache, and what a cache may serve in a later round (a bundle fetched earlier that is still within its
+			// validity) is C15's statement, not this one
+			if supply == 2 && k > 0 {
+				if action == "enforce" && rev.Error != nil && verr == nil {
+					res.Violate("C05/enforced-revocation-failure-accepted", key, "revocation failed under enforce but verification succeeded")
+				}
+				res.Probe("later_round_with_the_librarys_own_validator_not_judged_end_to_end")
+				continue
+			}
 			if rev.Error == nil && worst != trGood {
 				class := "C05/revoked-certificate-passed-end-to-end"
 				if worst == trUnknown {
